@@ -252,7 +252,7 @@ def run(ck: Check) -> int:
         heads = ['', 'a', '.', '*', 'b?']
         bodies = ['', 'a', 'a|b', 'a|', '[a', '.a', '*', 'a|.b', '?(a', 'ab|*(b']
         pats = [h + x + '(' + b for h in heads for x in '*?+@!' for b in bodies if not (h == '' and x == '!')]
-        names = [''.join(t) for L in range(1, 4 if quick else 5) for t in itertools.product('ab.(|', repeat=L)]
+        names = [''.join(t) for L in range(1, 4 if (ck.tier == 'quick' and not ck.deep()) else 5) for t in itertools.product('ab.(|', repeat=L)]
         names = [n for n in names if n.count('(') <= 1 and n.count('|') <= 1]
         names += ['.b(a', '.(a', 'a.(a', '.a(a|b', 'ab(a', '.ab(', '?(a', '*(a', '.*(a']
         for p in pats:
